@@ -243,11 +243,70 @@ func init() {
 				}
 			},
 		}
+		// try forms that carry no source position: the whole program handed over as an AST built from Go, two
+		// different try forms side by side (whatever EVAL remembers about "the try form at this position"
+		// must not leak from one form into the other, nor from one evaluation into the next of the process)
+		var rgn *evalRig
+		wN := func() int {
+			if tier == "thorough" {
+				return 4
+			}
+			return 3
+		}
+		famN := &vf.Family{
+			Name:   "try-nests-without-source-positions",
+			Bounds: "all ordered pairs of try forms of weight <=3 (quick) / <=4 (thorough) of the same grammar, as (list T1 T2) under the prelude, delivered as an AST built from Go (no node has a source position); all pairs of a worker run in one process, one after the other",
+			Setup:  func(t string) { tier = t; rgn = newEvalRig(false); rgn.ntTraceOnly = true },
+			N:      func(t string) int64 { tier = t; n := gOf().Count(0, wN()); return n * n },
+			Describe: func(i int64) string {
+				n := gOf().Count(0, wN())
+				return c03Wrap(form("list", gOf().Unrank(0, i/n), gOf().Unrank(0, i%n))).Lisp()
+			},
+			Run: func(i int64, r *vf.Rec) {
+				n := gOf().Count(0, wN())
+				rgn.compareWithModel(c03Wrap(form("list", gOf().Unrank(0, i/n), gOf().Unrank(0, i%n))), []string{"e", "x"}, r, false)
+			},
+		}
+		// try forms built while the program runs: nested inside a macro's template, assembled with list / cons
+		// and handed to eval; several different ones in one program
+		builtCases := []fixedCase{
+			{"(do (defmacro g1 (fn [x] `(do (try ~x (catch e1 [:first e1]) (finally (t! :fin1)))))) (defmacro g2 (fn [x] `(do (try ~x (catch e2 {:second e2}) (finally (t! :fin2)))))) (list (g1 (throw {:code 1})) (g2 (throw '(a b))) (g2 (+ 1 2)) (g1 7)))", `([:"first" {:"code" 1}] {:"second" ('"a" '"b")} 3 7)`, `[:"fin1" :"fin2" :"fin2" :"fin1"]`},
+			{"(do (def mk (fn [tag v] (list 'try (list 'throw v) (list 'catch 'e (list 'list tag 'e)) (list 'finally (list 't! tag))))) (list (eval (mk :a 1)) (eval (mk :b 2)) (eval (mk :a 3))))", `((:"a" 1) (:"b" 2) (:"a" 3))`, `[:"a" :"b" :"a"]`},
+			{"(do (defmacro w (fn [tag body] `(let [r (try ~body (catch e (do (t! ~tag) e)))] r))) (list (w :p (throw 1)) (w :q (throw 2)) (w :r 3)))", `(1 2 3)`, `[:"p" :"q"]`},
+			{"(do (def a (cons 'try (cons '(throw :x) (list '(catch e (t! :h1) e))))) (def b (cons 'try (cons '(throw :y) (list '(catch e (t! :h2) (list e)) '(finally (t! :f2)))))) (list (eval a) (eval b) (eval a)))", `(:"x" (:"y") :"x")`, `[:"h1" :"h2" :"f2" :"h1"]`},
+			{"(do (defmacro outer (fn [x] `(list (try ~x (catch e (t! :o1) e)) (try (throw :inner) (catch e (t! :o2) e) (finally (t! :of)))))) (outer (throw :arg)))", `(:"arg" :"inner")`, `[:"o1" :"o2" :"of"]`},
+		}
+		var rgbt *evalRig
+		famBt := &vf.Family{
+			Name: "try-forms-built-at-run-time", InProc: true,
+			Bounds:   fmt.Sprintf("%d fixed programs: several different try forms nested inside macro templates, or assembled with list / cons and handed to eval, in one program; expected value and effects written down by hand", len(builtCases)),
+			Setup:    func(t string) { tier = t; rgbt = newEvalRig(true); rgbt.ntTraceOnly = true },
+			N:        func(string) int64 { return int64(len(builtCases)) },
+			Describe: func(i int64) string { return builtCases[i].prog },
+			Run: func(i int64, r *vf.Rec) {
+				c := builtCases[i]
+				out, _ := rgbt.runImpl(lx.MustRead(c.prog), 3000)
+				r.Exec(1)
+				r.NT()
+				got := "panic"
+				switch {
+				case out.Panic != nil:
+					got = "panic " + out.Panic.String()
+				case out.IsErr:
+					got = "error " + out.ErrMsg
+				default:
+					got = out.Val.String()
+				}
+				if got != c.want || traceStr(out.Trace) != c.trace {
+					r.Violation("a try form built at run time does not deliver to its own handler / run its own finally once", fmt.Sprintf("%s\nexpected %s with effects %s, got %s with effects %s", c.prog, c.want, c.trace, got, traceStr(out.Trace)))
+				}
+			},
+		}
 		return &vf.Check{
 			ID: "C03", Level: "model_checking",
 			Rule:        "every try/catch/finally nest of the bounded grammar runs on the real EVAL and on the definitional interpreter (handler value returned as a value, catch variable scoped to the handler, finally exactly once after body and handler, outcome unchanged by finally); result, thrown payload via ErrorValue, errors.Is for Go errors, and the ordered effect trace must agree; non-trivial = has effects",
 			Assumptions: []string{"a finally body that itself fails is swallowed (README: 'for side effects only')", "payload of unbound-symbol / arity / domain errors is opaque and compared by kind only"},
-			Families:    []*vf.Family{fam, famD, famR, famA, famB},
+			Families:    []*vf.Family{fam, famD, famR, famA, famB, famN, famBt},
 		}
 	})
 }
